@@ -28,6 +28,12 @@ CHECKS["C19"] = dict(
   text="Every sequence of <=3 (thorough <=4) path tokens over a 19-token alphabet (dot segments, encoded separators, backslashes, NUL, odd suffixes, existing and canary names; joined with / and with nothing) is sent as a raw request line to the real chi router (setupRouter compiled from /repo through an overlay test binary) for upload and download, twice; after every request the whole scratch tree is snapshotted and compared: only new regular files inside pcap/, never a modified file, downloads only serve files inside pcap/, duplicate uploads fail, a 2xx upload is queued exactly once (observed through the processed-pcap webhook after a goroutine-level quiescence barrier). All order-preserving merges of the steps of two same-name uploads (also aborted ones) and upload-vs-download are executed under harness-controlled body delivery.",
   note="Trusted: net/http, chi. Request bodies are split in 2 (thorough 3) pieces; the overlay only adds a _test.go file and a web/dist stub.")
 
+CHECKS["C14"] = dict(
+  category="model_checking", engine="E4-enum+workers", design_ref="3/C14",
+  technique="exhaustive enumeration of byte strings and grammar-token sequences, each parsed twice by the real parser in watchdog-supervised, memory-limited worker processes",
+  text="Every byte string of length <=3 (thorough <=4) over a 40-symbol alphabet, every sequence of <=2-3 (thorough <=3) tokens over 57 grammar tokens (space-joined and adjacent) and structured stress families (all small combinations of repeated variable summands with common factors, 1000-element lists, 200-way OR, nesting depth 30, negation of disjunctions up to the stated normal-form bound, pathological regexes) are parsed twice by query.Parse in worker subprocesses: a panic, a worker death or no answer within the 60 s liveness watchdog is attributed to the exact input; the two parses must be structurally equal modulo the parse instant.",
+  note="Promptness is judged only by the 60 s watchdog and only for inputs whose constructed normal form stays below ~300 conjuncts; inputs beyond that are run in thorough and reported as observations. Memory limit 6 GiB per worker.")
+
 NOT_YET = {}
 
 def main():
